@@ -249,6 +249,52 @@ impl Rhs<f64> for CubicDecay {
     }
 }
 
+/// z1' = -w z2, z2' = w z1 over the complex field, started on an isotropic vector a (1, i): the solution stays a
+/// multiple of (1, i), and so does every quasi-Newton shift s of the BDF solvers - for which the plain
+/// transpose gives s^T s = 0 (D46: the rank-one update divided by it; Err(MaximumIterationsExceeded)).
+struct Rotation {
+    om: f64,
+}
+impl Rhs<C64> for Rotation {
+    fn dim(&self) -> usize {
+        2
+    }
+    fn eval(&self, _t: f64, y: &[C64], out: &mut [C64]) {
+        out[0] = -y[1] * self.om;
+        out[1] = y[0] * self.om;
+    }
+}
+
+fn isotropic_case(rep: &mut Report, i: u64, seed: u64) {
+    let mut rng = if i < 12 { Rng::for_case(4646, "c05-iso-anchor", i) } else { Rng::for_case(seed, "c05-iso", i) };
+    let solver = Solver::ADAPTIVE[(i % 6) as usize];
+    let om = rng.log10(-0.5, 0.5);
+    let tol = rng.log10(-9.0, -3.0);
+    let dt_max = dtmax_for(solver, om, tol, rng.r(0.5, 1.0));
+    let cfg = Cfg { t0: rng.r(-1.0, 1.0), t1: 0.0, dt_min: dt_max * 1e-7, dt_max, tol };
+    let cfg = Cfg { t1: cfg.t0 + dt_max * rng.log10(0.8, 1.8), ..cfg };
+    let a = C64::from_polar(rng.log10(-1.0, 1.0), rng.r(0.0, 6.28));
+    let y0 = if rng.bool() { vec![a, a * C64::new(0.0, 1.0)] } else { vec![a, a * C64::new(0.0, -1.0)] };
+    let opts = Opts { budget: 3_000_000, max_items: 200_000, mode: if rng.bool() { DimMode::Static } else { DimMode::Dynamic }, ..Default::default() };
+    let out = solve_complex(solver, &cfg, &y0, &Rotation { om }, &opts);
+    rep.eval();
+    rep.count(&format!("{}/isotropic_complex_solves", solver.name()), 1);
+    let case = || J::obj().set("solver", solver.name()).set("problem", "z1' = -w z2, z2' = w z1, z(0) = a (1, +-i)").set("w", om).set("a", J::fs(&[a.re, a.im])).set("cfg", cfg.to_json()).set("derivative_calls", out.calls);
+    if let Some((m, l)) = &out.panic {
+        rep.violation(&format!("{}/panic", solver.name()), case(), format!("panicked: '{}' at {}", m, l));
+        return;
+    }
+    if out.budget_hit {
+        rep.violation(&format!("{}/work-budget-exhausted", solver.name()), case(), format!("still calling the derivative after {} calls", opts.budget));
+        return;
+    }
+    let pts = out.ok_points();
+    match pts.last() {
+        Some((t, _)) if out.n_err() == 0 && *t == cfg.t1 => rep.nontrivial(CaseHash::new("c05-iso").u(solver.idx() as u64).f(om).f(cfg.t0).f(cfg.t1).f(tol).0),
+        _ => rep.violation(&format!("{}/error-on-smooth-problem/isotropic-complex-state", solver.name()), case(), format!("the solve did not reach the end: {} points, {} Err items ({:?})", pts.len(), out.n_err(), out.items.iter().filter_map(|it| if let Item::Err(e) = it { Some(format!("{:?}", e)) } else { None }).next())),
+    }
+}
+
 fn overflowing_trial_case(rep: &mut Report, i: u64, seed: u64) {
     let mut rng = if i < 8 { Rng::for_case(4545, "c05-cubic-anchor", i) } else { Rng::for_case(seed, "c05-cubic", i) };
     let solver = if i % 2 == 0 { Solver::RK45 } else { Solver::RK23 };
@@ -286,6 +332,7 @@ fn overflowing_trial_case(rep: &mut Report, i: u64, seed: u64) {
 pub fn stages(ctx: &Ctx) -> Vec<Stage> {
     let seed = ctx.seed;
     let mut st = vec![];
+    st.push(Stage::new("complex-isotropic-state", ctx.tier.pick(600, 6_000), move |i, rep| isotropic_case(rep, i, seed)));
     st.push(Stage::new("overflowing-trial-step", ctx.tier.pick(400, 4_000), move |i, rep| overflowing_trial_case(rep, i, seed)));
     st.push(Stage::new("anchors", 6 * 6 * 2, move |i, rep| {
         let solver = Solver::ADAPTIVE[(i % 6) as usize];
@@ -408,6 +455,9 @@ pub fn stages(ctx: &Ctx) -> Vec<Stage> {
 
 pub fn thresholds(ctx: &Ctx, rep: &Report) -> Vec<Threshold> {
     let mut t = vec![];
+    for sv in Solver::ADAPTIVE {
+        t.push(Threshold { what: format!("{}: complex solves started on an isotropic vector a (1, +-i)", sv.name()), required: ctx.tier.pick(90.0, 900.0), observed: rep.counter(&format!("{}/isotropic_complex_solves", sv.name())) as f64 });
+    }
     for sv in [Solver::RK45, Solver::RK23] {
         t.push(Threshold { what: format!("{}: cubic decay with a step cap far beyond what the problem tolerates", sv.name()), required: ctx.tier.pick(200.0, 2_000.0), observed: rep.counter(&format!("{}/cubic_decay_with_a_huge_step_cap", sv.name())) as f64 });
     }
